@@ -60,3 +60,26 @@ CONTRACTS['teachers_round'] = Contract(
 for _k in ('threshold_absolute', 'binarize', 'invert', 'normalize'):
     CONTRACTS[_k].inputs = [('W', 'W0', 'mat', 'n'), ('copy', 'copy', 'bool')] + ([('thr', 'thr', 'real')] if _k == 'threshold_absolute' else [])
 CONTRACTS['teachers_round'].inputs = [('x', 'x', 'real')]
+
+
+# threshold_proportional: the clauses within reach (diagonal, symmetry, kept entries keep their weight, kept >= dropped);
+# the exact-count clause (kept = min(round(p * possible), #links)) needs an injective-enumeration counting lemma: bounded only.
+def _setup_tp(eng, st):
+    n = z3.Int('n')
+    st.pc.append(n >= 1)
+    st.env['W'] = alloc(st, 2, z3.Const('W0', A2R), (n, n), REAL)
+    st.ghost['n0'] = n
+    st.env['copy'] = z3.Bool('copy')
+    st.env['p'] = z3.Real('p')
+
+
+CONTRACTS['threshold_proportional'] = Contract(
+    OTHER, 'threshold_proportional', ['W', 'p', 'copy'], setup=_setup_tp,
+    requires=[('weights-nonnegative', CELLS % "W[x, y] >= 0")],
+    ensures=[('diagonal-cleared', "forall(lambda x: implies(inr(x, n0), result()[x, x] == 0))"),
+             ('symmetric-input-gives-symmetric-output', "implies(" + (CELLS % "arg('W')[x, y] == arg('W')[y, x]") + ", " + (CELLS % "result()[x, y] == result()[y, x]") + ")"),
+             # (in the branch taken when np.allclose(W, W.T) holds the output is rebuilt from the upper triangle, so a kept cell carries the weight of the cell or of its mirror cell)
+             ('kept-entries-keep-their-weight-others-are-zero', CELLS % "Or(result()[x, y] == 0, And(x != y, Or(result()[x, y] == arg('W')[x, y], result()[x, y] == arg('W')[y, x])))"),
+             ] + COPY_CLAUSES,
+    ensures_raises=[('rejects-only-p-outside-0-1', "And(raised('BCTParamError'), Or(p > 1, p < 0))")])
+CONTRACTS['threshold_proportional'].inputs = [('W', 'W0', 'mat', 'n'), ('copy', 'copy', 'bool'), ('p', 'p', 'real')]
